@@ -183,8 +183,8 @@ def gen_setters(rng, n):
 
 
 ENUM_INPUTS = [("w_spec", "abort"), ("w_react", "abort"), ("h_selout", "abort"), ("w_calcval", "abort"), ("w_gas_ss", "abort"), ("h_title_copy", "abort"),
-               ("w_kin_rk", "alloc"), ("w_basic", "alloc"), ("w_adv", "alloc")]
-ENUM_SPAN = 420
+               ("w_kin_rk", "alloc"), ("w_basic", "alloc"), ("w_adv", "alloc"), ("w_kin_cvode", "abort"), ("w_kin_cvode", "alloc"), ("w_trans", "abort"), ("w_inverse", "abort")]
+ENUM_SPAN = 520
 
 
 def generate(rng, tier, index):
